@@ -6,6 +6,16 @@ use hifitime::{Duration, Epoch, TimeScale, TimeSeries, TimeUnits, Unit};
 fn always(_: &[Arg]) -> bool {
     true
 }
+/// known finding D1: Duration::total_nanoseconds is wrong below -1 century; the falsifier searches outside that region
+/// for the operations that go through it (so that what it reports is a NEW disagreement, not D1 again)
+fn no_d1(a: &[Arg]) -> bool {
+    a.iter().all(|x| match x { Arg::Dur(..) => x.total() >= -NPC, Arg::I(v) => *v >= -NPC, _ => true })
+}
+/// floor / ceil / round also read back the floored value: keep it outside the D1 region too
+fn no_d1_snap(a: &[Arg]) -> bool {
+    let (t, s) = (a[0].total(), a[a.len() - 1].total());
+    no_d1(a) && (s == 0 || floor_to(t, s.abs()) >= -NPC)
+}
 fn show_d(d: Duration) -> String {
     show_parts(d.to_parts())
 }
@@ -25,10 +35,10 @@ pub static OPS: &[Op] = &[
     Op { name: "from_truncated_nanoseconds", sig: &[Ty::I64], pre: always, f: |a| {
         (show_d(Duration::from_truncated_nanoseconds(a[0].int() as i64)), show_total(a[0].int()))
     }},
-    Op { name: "total_nanoseconds", sig: &[Ty::Dur], pre: always, f: |a| {
+    Op { name: "total_nanoseconds", sig: &[Ty::Dur], pre: no_d1, f: |a| {
         (a[0].dur().total_nanoseconds().to_string(), a[0].total().to_string())
     }},
-    Op { name: "total_roundtrip", sig: &[Ty::I128], pre: always, f: |a| {
+    Op { name: "total_roundtrip", sig: &[Ty::I128], pre: no_d1, f: |a| {
         (Duration::from_total_nanoseconds(a[0].int()).total_nanoseconds().to_string(), clamp(a[0].int()).to_string())
     }},
     Op { name: "try_truncated_nanoseconds", sig: &[Ty::Dur], pre: always, f: |a| {
@@ -90,13 +100,13 @@ pub static OPS: &[Op] = &[
     Op { name: "abs", sig: &[Ty::Dur], pre: always, f: |a| {
         (show_d(a[0].dur().abs()), show_total(clamp(a[0].total().abs())))
     }},
-    Op { name: "mul_i64", sig: &[Ty::Dur, Ty::I64], pre: always, f: |a| {
+    Op { name: "mul_i64", sig: &[Ty::Dur, Ty::I64], pre: no_d1, f: |a| {
         (show_d(a[0].dur() * (a[1].int() as i64)), show_total(clamp_mul(a[0].total(), a[1].int())))
     }},
-    Op { name: "i64_mul_dur", sig: &[Ty::I64, Ty::Dur], pre: always, f: |a| {
+    Op { name: "i64_mul_dur", sig: &[Ty::I64, Ty::Dur], pre: no_d1, f: |a| {
         (show_d((a[0].int() as i64) * a[1].dur()), show_total(clamp_mul(a[1].total(), a[0].int())))
     }},
-    Op { name: "div_i64", sig: &[Ty::Dur, Ty::I64], pre: |a| a[1].int() != 0, f: |a| {
+    Op { name: "div_i64", sig: &[Ty::Dur, Ty::I64], pre: |a| a[1].int() != 0 && no_d1(a), f: |a| {
         // Rust's `/` on i128 truncates toward zero, as C01 requires
         (show_d(a[0].dur() / (a[1].int() as i64)), show_total(clamp(a[0].total() / a[1].int())))
     }},
@@ -152,17 +162,17 @@ pub static OPS: &[Op] = &[
         (((a[0].dur() + a[1].dur()) > a[0].dur()).to_string(), (a[1].total() > 0).to_string())
     }},
     // ---------------------------------------------------------------- C14 floor / ceil / round
-    Op { name: "floor", sig: &[Ty::Dur, Ty::Dur], pre: always, f: |a| {
+    Op { name: "floor", sig: &[Ty::Dur, Ty::Dur], pre: no_d1_snap, f: |a| {
         let (t, s) = (a[0].total(), a[1].total());
         let e = if s == 0 { 0 } else { clamp(floor_to(t, s.abs())) };
         (show_d(a[0].dur().floor(a[1].dur())), show_total(e))
     }},
-    Op { name: "ceil", sig: &[Ty::Dur, Ty::Dur], pre: always, f: |a| {
+    Op { name: "ceil", sig: &[Ty::Dur, Ty::Dur], pre: no_d1_snap, f: |a| {
         let (t, s) = (a[0].total(), a[1].total());
         let e = if s == 0 { 0 } else { clamp(clamp(floor_to(t, s.abs())) + s.abs()) };
         (show_d(a[0].dur().ceil(a[1].dur())), show_total(e))
     }},
-    Op { name: "round", sig: &[Ty::Dur, Ty::Dur], pre: always, f: |a| {
+    Op { name: "round", sig: &[Ty::Dur, Ty::Dur], pre: no_d1_snap, f: |a| {
         let (t, s) = (a[0].total(), a[1].total());
         let e = if s == 0 { 0 } else {
             let f = clamp(floor_to(t, s.abs()));
@@ -239,7 +249,7 @@ pub static OPS: &[Op] = &[
         (format!("{:?} eq={} lt={}", e.cmp(&f), e == f, e < f), format!("{:?} eq={} lt={}", x.cmp(&y), x == y, x < y))
     }},
     // ---------------------------------------------------------------- C14 epoch snapping
-    Op { name: "epoch_floor_ceil_round", sig: &[Ty::Dur, Ty::Ts, Ty::Dur], pre: always, f: |a| {
+    Op { name: "epoch_floor_ceil_round", sig: &[Ty::Dur, Ty::Ts, Ty::Dur], pre: no_d1_snap, f: |a| {
         let e = Epoch::from_duration(a[0].dur(), a[1].ts());
         let (t, s) = (a[0].total(), a[2].total());
         let (fl, ce, ro) = (e.floor(a[2].dur()), e.ceil(a[2].dur()), e.round(a[2].dur()));
@@ -279,6 +289,7 @@ pub static OPS: &[Op] = &[
     Op { name: "timeseries", sig: &[Ty::Dur, Ty::UTs, Ty::Dur, Ty::UTs, Ty::Dur, Ty::Bool], pre: |a| {
         // positive step, non-negative span, at most 2000 items, everything far from saturation
         let step = a[4].total();
+        if !no_d1(a) { return false; }
         if step <= 0 || a[0].total().abs() > 1000 * NPC || a[2].total().abs() > 1000 * NPC { return false; }
         let span = a[2].total() + scale_zero(a[3].ts()).unwrap() - scale_zero(a[1].ts()).unwrap() - a[0].total();
         span >= 0 && span / step <= 2000
